@@ -99,8 +99,11 @@ def burst(tier, pol, cap):
 
 def pipeline_reg(tier):
     """run-time registration of reducer / middleware / subscriber while actions flow"""
-    progs = [{"c1": [D(1), D(2)] + STOP,
-              "c2": [S("add_reducer", "r2"), S("add_mw", "m2"), S("add_sub", "s2")]}]
+    if tier == "quick":
+        progs = [{"c1": [D(1), D(2), O("stop"), O("get_state")], "c2": [S("add_reducer", "r2"), S("add_mw", "m2")]}]
+    else:
+        progs = [{"c1": [D(1), D(2)] + STOP,
+                  "c2": [S("add_reducer", "r2"), S("add_mw", "m2"), S("add_sub", "s2")]}]
     return _i("pipe", progs, {1: 0, 2: 1}, cap=2, mws=("m1",), subs={"s1": {"kind": "direct"}, "s2": {"kind": "direct"}},
               red_script={"r1": {0: red("D", eff("task")), 1: red("D")}}, max_tasks=1, fine_reg=True)
 
@@ -134,13 +137,20 @@ def chan(tier, pol="block", cap=1, unsub=True):
 def effects(tier, variant=0):
     if variant == 0:
         rs = {"r1": {0: red("D", eff("task")), 1: red("K", eff("panic"))}, "r2": {0: red("D", eff("fn")), 1: red("D")}}
-        progs = [{"c1": [D(1), D(2)] + STOP, "c2": [O("task")]}]
+        if tier == "quick":
+            rs = {"r1": {0: red("D", eff("task")), 1: red("K", eff("panic"))}, "r2": {0: red("D"), 1: red("D", eff("fn"))}}
+            progs = [{"c1": [D(1), D(2), O("stop"), O("metrics")]}]
+        else:
+            progs = [{"c1": [D(1), D(2)] + STOP, "c2": [O("task"), O("get_state")]}]
         return _i("eff0", progs, {1: 0, 2: 1}, cap=2, reducers=("r1", "r2"), red_script=rs, max_tasks=4)
     if variant == 1:
         rs = {"r1": {0: red("D", eff("act", 9)), 1: red("D", eff("thunk", 8))}}
         progs = [{"c1": [D(1), D(2)] + STOP}]
         return _i("eff1", progs, {1: 0, 2: 1, 8: 2, 9: 2}, cap=2, red_script={"r1": {0: red("D", eff("act", 9)), 1: red("D", eff("thunk", 8)), 2: red("D")}},
                   max_tasks=2, kinds=(0, 1, 2))
+    if variant == 3:          # tasks and thunks handed over by a client while the store is running
+        progs = [{"c1": [D(1), O("stop"), O("get_state")], "c2": [O("task"), TH(3)]}]
+        return _i("eff3", progs, {1: 0, 3: 1}, cap=2, red_script={"r1": {0: red("D", eff("task")), 1: red("D")}}, max_tasks=3)
     rs = {"r1": {0: red("D", eff("task")), 1: red("D", eff("fn"))}}
     progs = [{"c1": [D(1), D(2)] + STOP, "c2": [TH(3)]}]
     return _i("eff2", progs, {1: 0, 2: 1, 3: 1}, cap=1, red_script=rs, mws=("m1",), mw_remove={"m1": {1: "all"}},
@@ -280,9 +290,9 @@ def table(pid, tier):
         T = dict(mc=[(i, inv, []) for i in insts], gen=[(i, 900 if q else 10000) for i in insts[:2]],
                  free=[(i, 80 if q else 500) for i in insts])
     elif pid == "C11":
-        insts = [effects(tier, 0), effects(tier, 1)] + ([] if q else [effects(tier, 2)])
+        insts = [effects(tier, 0), effects(tier, 1), effects(tier, 3)] + ([] if q else [effects(tier, 2)])
         inv = ["C11_AtMostOnce", "C11_Once", "C11_Worker", "C11_Followup", "C11_Once_strict"]
-        T = dict(mc=[(i, inv, ["C11_QuietAfterStop"]) for i in insts], gen=[(i, 900 if q else 10000) for i in insts[:2]],
+        T = dict(mc=[(i, inv, ["C11_QuietAfterStop"]) for i in insts], gen=[(i, 700 if q else 10000) for i in insts[:3]],
                  free=[(i, 80 if q else 500) for i in insts])
     elif pid == "C12":
         insts = [middleware(tier, 1), middleware(tier, 2)] + ([] if q else [middleware(tier, 3)])
